@@ -165,7 +165,7 @@ Ltac simp :=
 (* case analysis of one transition: every guard of lstep is destructed, the successor state
    is substituted *)
 Ltac destr_step H :=
-  unfold step, lstep in H; cbv zeta in H;
+  unfold step, lstep, lstep_with in H; cbv zeta in H;
   repeat match type of H with
   | context [procs ?st ?p] => is_var st; let E := fresh "E" in destruct (procs st p) eqn:E;
                               cbn [alive plocked pinflight] in H; try discriminate H
@@ -383,7 +383,7 @@ Proof.
 Qed.
 
 (* I12, I13: the pid file and the schedulers only name processes that were created *)
-Definition I12 (st : jobdir) := forall p, pidf st = Some p -> p < nprocs st.
+Definition I12 (st : jobdir) := forall p, pidf st = PFSome p -> p < nprocs st.
 Definition I13 (st : jobdir) := forall s p, schild (scheds st s) = Some p -> p < nprocs st.
 Lemma I13_step : forall st l st', I12 st -> I13 st -> step st l st' -> I13 st'.
 Proof.
@@ -401,24 +401,35 @@ Proof.
   inversion Hq; subst. apply (H13 s). rewrite E. reflexivity.
 Qed.
 
+(* I15: the cleanup path is only entered with code XOk or XFail *)
+Definition pnopc (c : ppc) : bool := match c with PRmPid XNop | PUnlock XNop => true | _ => false end.
+Definition I15 (st : jobdir) := forall p, pnopc (procs st p) = false.
+Lemma I15_step : forall st l st', I15 st -> step st l st' -> I15 st'.
+Proof.
+  intros st l st' H Hs q. destruct l; destr_step Hs; simp; try (apply H);
+  upd_cases; simp; try reflexivity; try (apply H);
+  try (destruct (script st); reflexivity); try (destruct (done st); reflexivity);
+  try (specialize (H p); rewrite E in H; destruct c; simpl in *; congruence).
+Qed.
+
 (* ------------------------------------------------------------------ the invariant *)
 Definition Inv (st : jobdir) : Prop :=
   I1 st /\ I2 st /\ I3 st /\ I4 st /\ I5 st /\ I6 st /\ I7 st /\ I8 st /\ I9 st /\ I11 st /\
-  I12 st /\ I13 st /\ I14 st.
+  I12 st /\ I13 st /\ I14 st /\ I15 st.
 
 Lemma Inv_initial : forall st, initial st -> Inv st.
 Proof.
   intros st (Hp & Hn & Hs & Hl & Hr & Ha & Hi & Hla & Hsu & Hab & Hd0 & Hpid).
-  unfold Inv, I1, I2, I3, I4, I5, I6, I7, I8, I9, I11, I12, I13, I14, Cnt.
+  unfold Inv, I1, I2, I3, I4, I5, I6, I7, I8, I9, I11, I12, I13, I14, I15, Cnt.
   repeat split; intros; rewrite ?Hp, ?Hs in *; simpl in *; try discriminate; try lia; try congruence.
 Qed.
 
 Lemma Inv_step : forall st l st', Inv st -> step st l st' -> Inv st'.
 Proof.
-  intros st l st' (H1 & H2 & H3 & H4 & H5 & H6 & H7 & H8 & H9 & H11 & H12 & H13 & H14) Hs.
+  intros st l st' (H1 & H2 & H3 & H4 & H5 & H6 & H7 & H8 & H9 & H11 & H12 & H13 & H14 & H15) Hs.
   unfold Inv. repeat (match goal with |- _ /\ _ => split end);
   eauto using I1_step, I2_step, I3_step, I4_step, I5_step, I6_step, I7_step, I8_step, I9_step,
-              I11_step, I12_step, I13_step, I14_step.
+              I11_step, I12_step, I13_step, I14_step, I15_step.
 Qed.
 
 Lemma Inv_steps : forall st tr st', steps st tr st' -> Inv st -> Inv st'.
@@ -474,7 +485,7 @@ Qed.
    launched for it.  No reachability hypothesis: arbitrary prior contents, arbitrary
    processes.                                                                          *)
 Definition snolaunch (c : spc) : bool :=
-  match c with SIdle | STest1 | SPid _ | SAdopt _ | STest2 _ _ | SFinal _ | SDead => true | _ => false end.
+  match c with SIdle | STest1 | SPid _ | SAdopt _ | STest2 _ _ | SFinal _ | SDead | SStuck => true | _ => false end.
 Lemma sover_nolaunch : forall c, sover c = true -> snolaunch c = true.
 Proof. destruct c; simpl; congruence. Qed.
 
@@ -512,10 +523,10 @@ Qed.
    Single scheduler slot (the same experiment run again and again)
    ================================================================== *)
 Definition J1 (st : jobdir) := forall s, s <> 0 -> scheds st s = SIdle.
-Definition J2 (st : jobdir) := sprelaunch (scheds st 0) = true -> forall p, pidf st = Some p -> alive (procs st p) = false.
+Definition J2 (st : jobdir) := sprelaunch (scheds st 0) = true -> forall p, pidf st = PFSome p -> alive (procs st p) = false.
 Definition J7 (st : jobdir) := scheds st 0 = SSpawn -> script st = SFull.
 Definition goodproc (st : jobdir) (p : nat) := (procs st p = PExec -> script st = SFull) /\ procs st p <> PExit XNop.
-Definition J3 (st : jobdir) := forall p, pidf st = Some p -> goodproc st p.
+Definition J3 (st : jobdir) := forall p, pidf st = PFSome p -> goodproc st p.
 Definition J4 (st : jobdir) := forall p, schild (scheds st 0) = Some p -> goodproc st p.
 Definition J5 (st : jobdir) := scheds st 0 = SFinal VDone -> done st = true.
 Definition J8 (st : jobdir) := forall d, scheds st 0 = STest2 true d -> done st = true \/ 1 <= aborts st.
@@ -534,7 +545,7 @@ Proof. destruct c; simpl; intros; try discriminate; eauto. Qed.
 Lemma J2_step : forall st l st', lbl_single l -> Inv st -> J1 st -> J2 st -> step st l st' -> J2 st'.
 Proof.
   intros st l st' Hl HI H1 H Hs Hq x Hx.
-  destruct HI as (_ & _ & _ & _ & _ & _ & H7 & _ & _ & _ & H12 & _ & H14).
+  destruct HI as (_ & _ & _ & _ & _ & _ & H7 & _ & _ & _ & H12 & _ & H14 & _).
   destruct l; single Hl; destr_step Hs; simp;
   try (rewrite upd_same in Hq; simpl in Hq); try discriminate;
   try (inversion Hx; subst; assumption);
@@ -554,14 +565,648 @@ Qed.
 Lemma J3_step : forall st l st', lbl_single l -> Inv st -> J1 st -> J2 st -> J3 st -> J4 st -> step st l st' -> J3 st'.
 Proof.
   intros st l st' Hl HI H1 H2 H H4 Hs x Hx.
-  destruct HI as (_ & _ & _ & _ & _ & _ & H7 & _ & _ & _ & H12 & _ & H14).
+  destruct HI as (_ & _ & _ & _ & _ & _ & H7 & _ & _ & _ & H12 & _ & H14 & H15).
   unfold goodproc in *.
   destruct l; single Hl; destr_step Hs; simp; try discriminate;
   try (apply H; assumption);
   try (pose proof (H _ Hx) as [Ha Hb]);
   try (split; [intros Hy|intros Hy]; upd_cases; simp; try discriminate; try reflexivity; try congruence; eauto).
-  all: idtac "---"; try (exfalso; assert (Hal : alive (procs st x) = false) by (apply H2; [rewrite E; reflexivity|assumption]); rewrite Hy in Hal; discriminate Hal);
+  all: try (exfalso; assert (Hal : alive (procs st x) = false) by (apply H2; [rewrite E; reflexivity|assumption]); rewrite Hy in Hal; discriminate Hal);
     try (exfalso; specialize (H12 _ Hx); lia);
     try (inversion Hx; subst; destruct (H4 x) as [Hc Hd]; [rewrite E; reflexivity|]; first [apply Hc; assumption | apply Hd; assumption]);
     try (specialize (Ha E); congruence).
-Show. all: idtac "---". Abort.
+  inversion Hy; subst. specialize (H15 p). rewrite E in H15. discriminate.
+Qed.
+
+Lemma J4_step : forall st l st', lbl_single l -> Inv st -> J1 st -> J3 st -> J4 st -> J7 st -> step st l st' -> J4 st'.
+Proof.
+  intros st l st' Hl HI H1 H3 H H7' Hs x Hx.
+  destruct HI as (_ & _ & _ & _ & _ & _ & H7 & _ & _ & _ & H12 & H13 & H14 & H15).
+  unfold goodproc in *.
+  destruct l; single Hl; destr_step Hs; simp;
+  try (rewrite upd_same in Hx; simpl in Hx); try discriminate;
+  try (apply H; rewrite E; assumption);
+  try (apply H; assumption);
+  try (inversion Hx; subst; first [apply H3; assumption | apply H; rewrite E; reflexivity]);
+  try (pose proof (H _ Hx) as [Ha Hb]);
+  try (split; [intros Hy|intros Hy]; upd_cases; simp; try discriminate; try reflexivity; try congruence; eauto).
+  - specialize (Ha E). congruence.
+  - inversion Hy; subst. specialize (H15 p). rewrite E in H15. discriminate.
+Qed.
+
+Lemma J5_step : forall st l st', lbl_single l -> Inv st -> J4 st -> J5 st -> step st l st' -> J5 st'.
+Proof.
+  intros st l st' Hl HI H4 H Hs Hq.
+  destruct HI as (_ & _ & _ & _ & _ & _ & _ & H8 & H9 & _).
+  destruct l; single Hl; destr_step Hs; simp;
+  try (rewrite upd_same in Hq); try discriminate; try reflexivity; try assumption;
+  try (apply H; assumption);
+  try (eapply done_mono; [|apply H; assumption]; unfold step; simpl; rewrite ?E; reflexivity).
+  - apply (H9 0). rewrite E. reflexivity.
+  - destruct c; simpl in Hq; try discriminate.
+    + apply (H8 p). rewrite E0. reflexivity.
+    + exfalso. destruct (H4 p) as [_ Hn]; [rewrite E; reflexivity|]. apply Hn. assumption.
+Qed.
+
+Lemma J8_step : forall st l st', lbl_single l -> Inv st -> J4 st -> J8 st -> step st l st' -> J8 st'.
+Proof.
+  intros st l st' Hl HI H4 H Hs d Hq.
+  assert (Hmono := done_mono _ _ _ Hs). assert (Hab := aborts_mono _ _ _ Hs).
+  destruct HI as (_ & _ & _ & _ & _ & _ & _ & H8 & H9 & H11 & H12 & H13 & H14 & H15).
+  destruct l; single Hl; destr_step Hs; simp;
+  try (rewrite upd_same in Hq); try discriminate;
+  try (destruct (H d Hq) as [Hd|Ha]; [left; auto | right; lia]).
+  - exfalso. apply (H14 p); [apply (H13 0); rewrite E; reflexivity|assumption].
+  - destruct c.
+    + left. apply (H8 p). rewrite E0. reflexivity.
+    + right. apply (H11 p). rewrite E0. reflexivity.
+    + exfalso. destruct (H4 p) as [_ Hn]; [rewrite E; reflexivity|]. apply Hn. assumption.
+Qed.
+
+Definition Inv1 (st : jobdir) : Prop :=
+  Inv st /\ J1 st /\ J2 st /\ J3 st /\ J4 st /\ J5 st /\ J7 st /\ J8 st.
+
+Lemma Inv1_initial : forall st, initial st -> Inv1 st.
+Proof.
+  intros st Hi. split; [apply Inv_initial; assumption|].
+  destruct Hi as (Hp & Hn & Hs & Hl & Hr & Ha & Hi & Hla & Hsu & Hab & Hd0 & Hpid).
+  unfold J1, J2, J3, J4, J5, J7, J8, goodproc.
+  repeat split; intros; rewrite ?Hs, ?Hp in *; simpl in *; try discriminate; try congruence; auto.
+Qed.
+
+Lemma Inv1_step : forall st l st', lbl_single l -> Inv1 st -> step st l st' -> Inv1 st'.
+Proof.
+  intros st l st' Hl (HI & H1 & H2 & H3 & H4 & H5 & H7 & H8) Hs.
+  unfold Inv1. repeat (match goal with |- _ /\ _ => split end);
+  eauto using Inv_step, J1_step, J2_step, J3_step, J4_step, J5_step, J7_step, J8_step.
+Qed.
+
+(* a scheduler concludes ERROR only for a cause: a failed/killed run, or a failed dependency *)
+Lemma verr_cause : forall st l st', lbl_single l -> Inv1 st -> step st l st' -> l <> LDepFail 0 ->
+  scheds st' 0 = SFinal VError -> scheds st 0 = SFinal VError \/ 1 <= aborts st'.
+Proof.
+  intros st l st' Hl (HI & H1 & H2 & H3 & H4 & H5 & H7 & H8) Hs Hne Hq.
+  destruct HI as (_ & _ & _ & _ & _ & _ & _ & I8' & I9' & I11' & _).
+  destruct l; single Hl; destr_step Hs; simp;
+  try (rewrite upd_same in Hq); try discriminate; try congruence; try (left; assumption).
+  - right. destruct (H8 d E) as [Hd|Ha]; [congruence|assumption].
+  - right. destruct c; simpl in Hq; try discriminate. apply (I11' p). rewrite E0. reflexivity.
+Qed.
+
+(* ==================================================================
+   Part 3.  Several jobs
+   ================================================================== *)
+Section GlobalLemmas.
+  Variable deps : nat -> list nat.
+
+  Lemma crash_cases : forall s st, (exists st', lstep (LCrash s) st = Some st' /\
+      (match lstep (LCrash s) st with Some st' => st' | None => st end) = st') \/
+    (lstep (LCrash s) st = None /\ (match lstep (LCrash s) st with Some st' => st' | None => st end) = st).
+  Proof. intros s st. destruct (lstep (LCrash s) st) eqn:E; [left; eauto|right; auto]. Qed.
+
+  (* a property of single job directories that every local effect preserves holds of every
+     job of the composed system *)
+  Lemma glift : forall (P : jobdir -> Prop),
+    (forall st l st', P st -> step st l st' -> P st') ->
+    forall g g', gstep deps g g' -> (forall j, P (jd g j)) -> forall j, P (jd g' j).
+  Proof.
+    intros P HP g g' Hs Hall k. inversion Hs; subst; cbn [jd].
+    - unfold upd. destruct (Nat.eqb_spec k j); [subst; eapply HP; eauto|apply Hall].
+    - unfold upd. destruct (Nat.eqb_spec k j); [subst; eapply HP; eauto|apply Hall].
+    - unfold upd. destruct (Nat.eqb_spec k j); [subst; eapply HP; eauto|apply Hall].
+    - destruct (crash_cases s (jd g k)) as [(st' & E & ->)|[E ->]]; [eapply HP; eauto|apply Hall].
+  Qed.
+  Lemma glift1 : forall (P : jobdir -> Prop),
+    (forall st l st', lbl_single l -> P st -> step st l st' -> P st') ->
+    forall g g', gstep1 deps g g' -> (forall j, P (jd g j)) -> forall j, P (jd g' j).
+  Proof.
+    intros P HP g g' Hs Hall k. inversion Hs; subst; cbn [jd].
+    - unfold upd. destruct (Nat.eqb_spec k j); [subst; eapply HP; eauto|apply Hall].
+    - unfold upd. destruct (Nat.eqb_spec k j); [subst; eapply (HP _ (LReady 0)); eauto; reflexivity|apply Hall].
+    - unfold upd. destruct (Nat.eqb_spec k j); [subst; eapply (HP _ (LDepFail 0)); eauto; reflexivity|apply Hall].
+    - destruct (crash_cases 0 (jd g k)) as [(st' & E & ->)|[E ->]]; [eapply (HP _ (LCrash 0)); eauto; reflexivity|apply Hall].
+  Qed.
+
+  Lemma gsteps_inv : forall (P : jobdir -> Prop),
+    (forall st l st', P st -> step st l st' -> P st') ->
+    forall g g', gsteps deps g g' -> (forall j, P (jd g j)) -> forall j, P (jd g' j).
+  Proof. intros P HP g g' Hs. induction Hs; intros Hall; [assumption|]. apply IHHs. eapply glift; eauto. Qed.
+  Lemma gsteps1_inv : forall (P : jobdir -> Prop),
+    (forall st l st', lbl_single l -> P st -> step st l st' -> P st') ->
+    forall g g', gsteps1 deps g g' -> (forall j, P (jd g j)) -> forall j, P (jd g' j).
+  Proof. intros P HP g g' Hs. induction Hs; intros Hall; [assumption|]. apply IHHs. eapply glift1; eauto. Qed.
+
+  Lemma greachable_Inv : forall g, greachable deps g -> forall j, Inv (jd g j).
+  Proof.
+    intros g (g0 & Hi & Hs). eapply (gsteps_inv Inv); eauto using Inv_step.
+    intros j. apply Inv_initial, Hi.
+  Qed.
+  Lemma greachable1_Inv1 : forall g, greachable1 deps g -> forall j, Inv1 (jd g j).
+  Proof.
+    intros g (g0 & Hi & Hs). eapply (gsteps1_inv Inv1); eauto using Inv1_step.
+    intros j. apply Inv1_initial, Hi.
+  Qed.
+  Lemma greachable1_done0 : forall g, greachable1 deps g -> forall j, done0 (jd g j) = false.
+  Proof.
+    intros g (g0 & Hi & Hs). eapply (gsteps1_inv (fun st => done0 st = false)); eauto.
+    - intros st l st' _ H Hst. rewrite (done0_const _ _ _ Hst). assumption.
+    - intros j. destruct (Hi j) as [Hini Hd]. destruct Hini as (_ & _ & _ & _ & _ & _ & _ & _ & _ & _ & Hd0 & _). congruence.
+  Qed.
+
+  (* the body of a job runs at most once more than the number of failed or killed runs *)
+  Lemma runs_le : forall st, Inv st -> body_runs st <= 1 + aborts st.
+  Proof.
+    intros st (_ & _ & [[A1 [A2 A3]] _] & H4 & [H5 _] & (H6 & _) & _).
+    destruct (done st) eqn:Hd.
+    - assert (inflight st = 0).
+      { destruct (inflight st) as [|[|k]]; [reflexivity| |lia]. destruct (A3 eq_refl) as [w Hw].
+        specialize (H4 Hd w). destruct (procs st w); simpl in *; discriminate. }
+      lia.
+    - lia.
+  Qed.
+
+  Lemma exactly_once_le : forall g, greachable deps g -> forall j, body_runs (jd g j) <= 1 + aborts (jd g j).
+  Proof. intros g Hr j. apply runs_le, greachable_Inv. assumption. Qed.
+
+  (* ERROR in the scheduler has a cause somewhere in the experiment *)
+  Definition Gerr (g : gstate) : Prop :=
+    forall j, scheds (jd g j) 0 = SFinal VError -> exists j', 1 <= aborts (jd g j').
+
+  Lemma aborts_witness : forall g g', gstep1 deps g g' ->
+    (exists j', 1 <= aborts (jd g j')) -> exists j', 1 <= aborts (jd g' j').
+  Proof.
+    intros g g' Hs [w Hw]. exists w.
+    assert (aborts (jd g w) <= aborts (jd g' w)); [|lia].
+    inversion Hs; subst; cbn [jd].
+    - unfold upd. destruct (Nat.eqb_spec w j); [subst; eapply aborts_mono; eauto|lia].
+    - unfold upd. destruct (Nat.eqb_spec w j); [subst; eapply aborts_mono; eauto|lia].
+    - unfold upd. destruct (Nat.eqb_spec w j); [subst; eapply aborts_mono; eauto|lia].
+    - destruct (crash_cases 0 (jd g w)) as [(st' & E & ->)|[E ->]]; [eapply aborts_mono; eauto|lia].
+  Qed.
+
+  Lemma Gerr_step : forall g g', (forall j, Inv1 (jd g j)) -> gstep1 deps g g' -> Gerr g -> Gerr g'.
+  Proof.
+    intros g g' HI Hs HG k Hk.
+    assert (Hw := aborts_witness _ _ Hs).
+    inversion Hs; subst; cbn [jd] in *.
+    - unfold upd in Hk. destruct (Nat.eqb_spec k j); [subst k|apply Hw, (HG k Hk)].
+      destruct (verr_cause _ _ _ H0 (HI j) H1) as [Ho|Ha]; auto.
+      + intros ->. discriminate.
+      + apply Hw, (HG j Ho).
+      + exists j. rewrite upd_same. assumption.
+    - unfold upd in Hk. destruct (Nat.eqb_spec k j); [subst k|apply Hw, (HG k Hk)].
+      destruct (verr_cause _ (LReady 0) _ eq_refl (HI j) H0) as [Ho|Ha]; auto.
+      + discriminate.
+      + apply Hw, (HG j Ho).
+      + exists j. rewrite upd_same. assumption.
+    - unfold upd in Hk. destruct (Nat.eqb_spec k j); [subst k|apply Hw, (HG k Hk)].
+      destruct H as (d & Hd & Hv). apply Hw, (HG d Hv).
+    - destruct (crash_cases 0 (jd g k)) as [(st' & E & Heq)|[E Heq]]; rewrite Heq in Hk.
+      + exfalso. clear Heq. destr_step E; simp; rewrite upd_same in Hk; discriminate.
+      + apply Hw, (HG k Hk).
+  Qed.
+
+  Lemma greachable1_Gerr : forall g, greachable1 deps g -> Gerr g.
+  Proof.
+    intros g (g0 & Hi & Hs).
+    assert (HI0 : forall j, Inv1 (jd g0 j)) by (intros j; apply Inv1_initial, Hi).
+    assert (HG0 : Gerr g0).
+    { intros j Hj. destruct (Hi j) as [(_ & _ & Hsch & _) _]. rewrite Hsch in Hj. discriminate. }
+    clear Hi. induction Hs; [assumption|].
+    apply IHHs.
+    - eapply (glift1 Inv1); eauto using Inv1_step.
+    - eapply Gerr_step; eauto.
+  Qed.
+
+  (* in a final state of a run (after any number of killed runs of the same experiment) in
+     which no job run failed or was killed: every job is DONE, its marker exists, and its
+     body ran exactly once overall                                                       *)
+  Lemma final_all_done : forall n g, greachable1 deps g -> gfinal n g -> no_abort g ->
+    forall j, j < n -> scheds (jd g j) 0 = SFinal VDone /\ done (jd g j) = true /\ body_runs (jd g j) = 1.
+  Proof.
+    intros n g Hr Hf Hna j Hj.
+    destruct (Hf j Hj) as [v Hv].
+    assert (v = VDone).
+    { destruct v; [reflexivity|]. destruct (greachable1_Gerr _ Hr j Hv) as [w Hw]. rewrite (Hna w) in Hw. lia. }
+    subst v. destruct (greachable1_Inv1 _ Hr j) as (HI & _ & _ & _ & _ & H5 & _).
+    assert (Hd := H5 Hv). split; [assumption|split; [assumption|]].
+    assert (Hle := runs_le _ HI). rewrite (Hna j) in Hle.
+    destruct HI as (_ & _ & _ & _ & [_ H5b] & (_ & H6 & _) & _).
+    destruct (H6 Hd) as [H0|H1]; [rewrite (greachable1_done0 _ Hr j) in H0; discriminate|]. lia.
+  Qed.
+
+  Lemma exactly_once_final : forall n g, greachable1 deps g -> gfinal n g -> no_abort g ->
+    forall j, j < n -> body_runs (jd g j) = 1.
+  Proof. intros. eapply final_all_done; eauto. Qed.
+
+  Lemma results_final : forall n g, greachable1 deps g -> gfinal n g -> no_abort g ->
+    results n g = map (fun _ => (Some VDone, true)) (seq 0 n).
+  Proof.
+    intros n g Hr Hf Hna. unfold results. apply map_ext_in. intros j Hj. apply in_seq in Hj.
+    destruct (final_all_done n g Hr Hf Hna j) as (Hv & Hd & _); [lia|]. rewrite Hv, Hd. reflexivity.
+  Qed.
+
+  (* any two runs that reach a final state without a failed job run - whether or not the
+     scheduler was killed and the experiment started again on the way - have the same results *)
+  Lemma same_results : forall n g1 g2,
+    greachable1 deps g1 -> greachable1 deps g2 -> gfinal n g1 -> gfinal n g2 -> no_abort g1 -> no_abort g2 ->
+    results n g1 = results n g2.
+  Proof. intros. rewrite !results_final by assumption. reflexivity. Qed.
+
+  (* the death of the scheduler touches no job process and no marker file, frees the locks it
+     held and nothing else, and every effect a job process could perform it still can     *)
+  Definition crash_of (s : nat) (g : gstate) : gstate :=
+    {| jd := fun j => match lstep (LCrash s) (jd g j) with Some st' => st' | None => jd g j end |}.
+
+  Lemma release_some : forall a l b, release a l = Some b -> l = Some b.
+  Proof. intros a [c|] b H; simpl in H; [destruct (agent_eqb a c); congruence|discriminate]. Qed.
+
+  (* whether an effect of a job process is enabled depends on the process table and, for
+     Lock, on the lock being free *)
+  Lemma proc_step_enabled : forall l st st1 st', lbl_sched l = None -> lstep l st = Some st1 ->
+    procs st' = procs st -> (lock st = None -> lock st' = None) -> exists st1', lstep l st' = Some st1'.
+  Proof.
+    intros l st st1 st' Hl Hst Hp Hlk. destruct l; simpl in Hl; try discriminate; clear Hl;
+    unfold lstep, lstep_with in *; cbv zeta in *; rewrite Hp;
+    destruct (procs st p) eqn:E; cbn [alive] in *; try discriminate Hst; eauto.
+    - destruct (lock st); [discriminate|]. rewrite (Hlk eq_refl). eauto.
+    - destruct ok; eauto.
+    - destruct cleanup; eauto.
+  Qed.
+
+  Lemma crash_survive : forall s st st', lstep (LCrash s) st = Some st' ->
+    (forall p, procs st' p = procs st p) /\
+    done st' = done st /\ failed st' = failed st /\ pidf st' = pidf st /\ script st' = script st /\
+    body_runs st' = body_runs st /\ body_active st' = body_active st /\
+    (forall a, lock st' = Some a -> lock st = Some a) /\
+    (forall l st1, lbl_sched l = None -> lstep l st = Some st1 -> exists st1', lstep l st' = Some st1').
+  Proof.
+    intros s st st' E.
+    assert (Hp : procs st' = procs st) by (destr_step E; simp; reflexivity).
+    assert (Hl : lock st' = release (ASched s) (lock st)) by (destr_step E; simp; reflexivity).
+    split; [intros p; rewrite Hp; reflexivity|].
+    do 6 (split; [destr_step E; simp; reflexivity|]).
+    split.
+    - intros a Ha. rewrite Hl in Ha. eapply release_some; eauto.
+    - intros l st1 Hn Hst. eapply proc_step_enabled; eauto. intros H0. rewrite Hl, H0. reflexivity.
+  Qed.
+
+  Lemma jobs_survive : forall s g j,
+    let st := jd g j in let st' := jd (crash_of s g) j in
+    (forall p, procs st' p = procs st p) /\
+    done st' = done st /\ failed st' = failed st /\ pidf st' = pidf st /\ script st' = script st /\
+    body_runs st' = body_runs st /\ body_active st' = body_active st /\
+    (forall a, lock st' = Some a -> lock st = Some a) /\
+    (forall l st1, lbl_sched l = None -> lstep l st = Some st1 -> exists st1', lstep l st' = Some st1').
+  Proof.
+    intros s g j. cbv zeta. unfold crash_of. cbn [jd].
+    destruct (crash_cases s (jd g j)) as [(st' & E & ->)|[E ->]].
+    - eapply crash_survive; eauto.
+    - repeat split; auto. intros; eauto.
+  Qed.
+End GlobalLemmas.
+
+(* ------------------------------------------------------------------ the executable composition is sound *)
+Lemma is_vdone_eq : forall c, is_vdone c = true -> c = SFinal VDone.
+Proof. destruct c as [| | | | | | | | | | | | | |[|]| |]; simpl; congruence. Qed.
+Lemma is_verror_eq : forall c, is_verror c = true -> c = SFinal VError.
+Proof. destruct c as [| | | | | | | | | | | | | |[|]| |]; simpl; congruence. Qed.
+
+Lemma gexec_sound : forall deps m g g', gexec deps m g = Some g' -> gstep deps g g'.
+Proof.
+  intros deps m g g' H. destruct m as [j l|s]; simpl in H.
+  - destruct l;
+    try (destruct (lstep _ (jd g j)) eqn:E; inversion H; subst; eapply g_local; eauto; reflexivity).
+    + destruct (forallb _ (deps j)) eqn:F; [|discriminate].
+      destruct (lstep (LReady s) (jd g j)) eqn:E; inversion H; subst. eapply g_ready; eauto.
+      intros d Hd. rewrite forallb_forall in F. apply is_vdone_eq, F, Hd.
+    + destruct (existsb _ (deps j)) eqn:F; [|discriminate].
+      destruct (lstep (LDepFail s) (jd g j)) eqn:E; inversion H; subst. eapply g_depfail; eauto.
+      apply existsb_exists in F. destruct F as (d & Hd & Hv). exists d. split; [assumption|apply is_verror_eq, Hv].
+  - inversion H; subst. apply g_crash.
+Qed.
+
+Lemma gexec_sound1 : forall deps m g g', gmove_single m = true -> gexec deps m g = Some g' -> gstep1 deps g g'.
+Proof.
+  intros deps m g g' Hm H. destruct m as [j l|s]; simpl in H, Hm.
+  - destruct l; simpl in Hm; try (apply Nat.eqb_eq in Hm; subst);
+    try (destruct (lstep _ (jd g j)) eqn:E; inversion H; subst; eapply g1_local; eauto; reflexivity).
+    + destruct (forallb _ (deps j)) eqn:F; [|discriminate].
+      destruct (lstep (LReady 0) (jd g j)) eqn:E; inversion H; subst. eapply g1_ready; eauto.
+      intros d Hd. rewrite forallb_forall in F. apply is_vdone_eq, F, Hd.
+    + destruct (existsb _ (deps j)) eqn:F; [|discriminate].
+      destruct (lstep (LDepFail 0) (jd g j)) eqn:E; inversion H; subst. eapply g1_depfail; eauto.
+      apply existsb_exists in F. destruct F as (d & Hd & Hv). exists d. split; [assumption|apply is_verror_eq, Hv].
+  - apply Nat.eqb_eq in Hm. subst. inversion H; subst. apply g1_crash.
+Qed.
+
+Lemma grun_sound : forall deps ms g g', grun deps ms g = Some g' -> gsteps deps g g'.
+Proof.
+  induction ms as [|m ms IH]; simpl; intros g g' H.
+  - inversion H; subst. constructor.
+  - destruct (gexec deps m g) eqn:E; [|discriminate]. econstructor; [eapply gexec_sound; eauto|eauto].
+Qed.
+Lemma grun_sound1 : forall deps ms g g', forallb gmove_single ms = true -> grun deps ms g = Some g' -> gsteps1 deps g g'.
+Proof.
+  induction ms as [|m ms IH]; simpl; intros g g' Hs H.
+  - inversion H; subst. constructor.
+  - apply andb_true_iff in Hs. destruct Hs as [H1 H2].
+    destruct (gexec deps m g) eqn:E; [|discriminate]. econstructor; [eapply gexec_sound1; eauto|eauto].
+Qed.
+
+Lemma fresh_initial : initial fresh.
+Proof. unfold initial, fresh, mk_initial; simpl. repeat split; reflexivity. Qed.
+Lemma gfresh0_fresh : gfresh gfresh0.
+Proof. intros j. split; [apply fresh_initial|reflexivity]. Qed.
+Lemma gfresh_ginitial : forall g, gfresh g -> ginitial g.
+Proof. intros g H j. apply H. Qed.
+
+(* ==================================================================
+   Non-vacuity: concrete runs that meet the hypotheses of the theorems
+   ================================================================== *)
+Definition tr_sched_launch (s : nat) : list label :=
+  [LSubmit s; LTest1 s; LPid s; LTest2 s; LReady s; LSLock s; LTrunc s; LWrite s; LSpawn s; LCreatePid s; LWritePid s; LSUnlock s].
+Definition tr_proc_begin (p : nat) : list label := [LExec p; LPLock p; LPTest p; LRmFailed p; LBegin p].
+Definition tr_proc_skip (p : nat) : list label := [LExec p; LPLock p; LPTest p; LRmPid p; LPUnlock p].
+
+(* two schedulers: scheduler 1 passed its tests before scheduler 0 wrote the pid file; process 0
+   is inside the body, scheduler 1 waits for the lock *)
+Definition tr_two_scheds : list label :=
+  [LSubmit 1; LTest1 1; LPid 1; LTest2 1; LReady 1] ++ tr_sched_launch 0 ++ tr_proc_begin 0.
+Definition st_two_scheds : jobdir :=
+  match run_labels tr_two_scheds fresh with Some st => st | None => fresh end.
+Example body_mutex_nonvacuous :
+  reachable st_two_scheds /\ body_active st_two_scheds = 1 /\ procs st_two_scheds 0 = PBody /\
+  scheds st_two_scheds 1 = SLock /\ lstep (LSLock 1) st_two_scheds = None.
+Proof.
+  split; [|vm_compute; repeat split].
+  exists fresh, tr_two_scheds. split; [apply fresh_initial|]. apply run_labels_steps. vm_compute. reflexivity.
+Qed.
+
+(* after the success: scheduler 1 gets the lock, launches process 1, which finds the marker and
+   does not run the body; a third instance finds the marker and launches nothing *)
+Definition tr_after_success : list label :=
+  [LSLock 1; LTrunc 1; LWrite 1; LSpawn 1; LCreatePid 1; LWritePid 1; LSUnlock 1] ++ tr_proc_skip 1 ++
+  [LWaitEnd 1; LWaitEnd 0; LSubmit 2; LTest1 2; LPid 2; LTest2 2].
+Definition st_success : jobdir :=
+  match run_labels [LEnd 0 true; LTouch 0 false] st_two_scheds with Some st => st | None => fresh end.
+Example no_rerun_nonvacuous :
+  reachable st_success /\ done st_success = true /\
+  exists st', steps st_success tr_after_success st' /\ body_runs st' = 1 /\ launches st' = 2 /\
+              scheds st' 0 = SFinal VDone /\ scheds st' 1 = SFinal VDone /\ scheds st' 2 = SFinal VDone.
+Proof.
+  split; [|split; [vm_compute; reflexivity|]].
+  - exists fresh, (tr_two_scheds ++ [LEnd 0 true; LTouch 0 false]). split; [apply fresh_initial|].
+    apply run_labels_steps. vm_compute. reflexivity.
+  - eexists. split; [apply run_labels_steps; vm_compute; reflexivity|]. vm_compute. repeat split.
+Qed.
+
+(* a workspace whose marker exists: three later experiments, one of them killed and started again *)
+Definition tr_later : list label :=
+  [LSubmit 0; LTest1 0; LSubmit 1; LTest1 1; LPid 0; LCrash 0; LPid 1; LTest2 1; LSubmit 0; LTest1 0; LPid 0; LTest2 0;
+   LSubmit 2; LTest1 2; LPid 2; LTest2 2].
+Example done_never_launched_nonvacuous :
+  let st := mk_initial true true SFull in
+  done st = true /\ (forall s, sover (scheds st s) = true) /\
+  exists st', steps st tr_later st' /\ scheds st' 0 = SFinal VDone /\ scheds st' 1 = SFinal VDone /\
+              scheds st' 2 = SFinal VDone /\ launches st' = 0.
+Proof.
+  simpl. split; [reflexivity|split; [reflexivity|]].
+  eexists. split; [apply run_labels_steps; vm_compute; reflexivity|]. vm_compute. repeat split.
+Qed.
+
+(* C11, chain of two jobs.  Job 0: the scheduler is killed between Popen and the write of the pid
+   file; the orphan process takes the lock and runs the body; the experiment is started again,
+   finds neither marker nor pid file, blocks on the lock, then launches process 1, which finds the
+   marker and skips.  Job 1 is launched only after that.                                        *)
+Definition on (j : nat) (tr : list label) : list gmove := map (GOn j) tr.
+Definition mv_chain2_crash : list gmove :=
+  on 0 [LSubmit 0; LTest1 0; LPid 0; LTest2 0; LReady 0; LSLock 0; LTrunc 0; LWrite 0; LSpawn 0] ++
+  on 1 [LSubmit 0; LTest1 0; LPid 0; LTest2 0] ++
+  [GDie 0] ++
+  on 0 (tr_proc_begin 0) ++
+  on 0 [LSubmit 0; LTest1 0; LPid 0; LTest2 0; LReady 0] ++
+  on 1 [LSubmit 0; LTest1 0; LPid 0; LTest2 0] ++
+  on 0 [LEnd 0 true; LTouch 0 false; LSLock 0; LTrunc 0; LWrite 0; LSpawn 0; LCreatePid 0; LWritePid 0; LSUnlock 0] ++
+  on 0 (tr_proc_skip 1) ++ on 0 [LWaitEnd 0] ++
+  on 1 ([LReady 0; LSLock 0; LTrunc 0; LWrite 0; LSpawn 0; LCreatePid 0; LWritePid 0; LSUnlock 0] ++ tr_proc_begin 0 ++
+        [LEnd 0 true; LTouch 0 true; LRmPid 0; LPUnlock 0; LWaitEnd 0]).
+Definition g_chain2_crash : gstate :=
+  match grun deps_chain2 mv_chain2_crash gfresh0 with Some g => g | None => gfresh0 end.
+
+Lemma g_chain2_crash_run : grun deps_chain2 mv_chain2_crash gfresh0 = Some g_chain2_crash.
+Proof. vm_compute. reflexivity. Qed.
+
+Example final_nonvacuous_chain2 :
+  greachable1 deps_chain2 g_chain2_crash /\ gfinal 2 g_chain2_crash /\ no_abort g_chain2_crash /\
+  launches (jd g_chain2_crash 0) = 2 /\ body_runs (jd g_chain2_crash 0) = 1 /\
+  results 2 g_chain2_crash = [(Some VDone, true); (Some VDone, true)].
+Proof.
+  split; [|split; [|split]].
+  - exists gfresh0. split; [apply gfresh0_fresh|]. eapply grun_sound1; [|apply g_chain2_crash_run]. vm_compute. reflexivity.
+  - intros j Hj. destruct j as [|[|j]]; [eexists; vm_compute; reflexivity|eexists; vm_compute; reflexivity|lia].
+  - intros j. destruct j as [|[|j]]; vm_compute; reflexivity.
+  - vm_compute. repeat split.
+Qed.
+
+(* the job of a dependent is not READY before the dependency is DONE in the same instance *)
+Example chain2_gate : gexec deps_chain2 (GOn 1 (LReady 0))
+  (match grun deps_chain2 (on 1 [LSubmit 0; LTest1 0; LPid 0; LTest2 0]) gfresh0 with Some g => g | None => gfresh0 end) = None.
+Proof. vm_compute. reflexivity. Qed.
+
+(* tightness of exactly_once_le: a failed run is followed by a second run of the body *)
+Definition tr_fail_rerun : list label :=
+  tr_sched_launch 0 ++ tr_proc_begin 0 ++ [LEnd 0 false; LWriteFailed 0; LRmPid 0; LPUnlock 0; LWaitEnd 0] ++
+  tr_sched_launch 0 ++ tr_proc_begin 1 ++ [LEnd 1 true; LTouch 1 false; LWaitEnd 0].
+Example exactly_once_le_tight :
+  exists st, reachable st /\ body_runs st = 2 /\ aborts st = 1 /\ done st = true /\ failed st = false.
+Proof.
+  eexists. split; [exists fresh, tr_fail_rerun; split; [apply fresh_initial|apply run_labels_steps; vm_compute; reflexivity]|].
+  vm_compute. repeat split.
+Qed.
+
+(* a scheduler that dies while its job process is in the body: the process and the files are as before *)
+Example jobs_survive_nonvacuous :
+  let g := {| jd := fun _ => match run_labels (tr_sched_launch 0 ++ tr_proc_begin 0) fresh with Some st => st | None => fresh end |} in
+  procs (jd g 0) 0 = PBody /\ scheds (jd g 0) 0 = SWait 0 /\
+  procs (jd (crash_of 0 g) 0) 0 = PBody /\ scheds (jd (crash_of 0 g) 0) 0 = SDead /\ pidf (jd (crash_of 0 g) 0) = PFSome 0.
+Proof. vm_compute. repeat split. Qed.
+
+Lemma body_mutex_all_jobs : forall deps g, greachable deps g -> forall j, body_active (jd g j) <= 1.
+Proof. intros deps g Hr j. destruct (greachable_Inv deps g Hr j) as (_ & _ & [_ [B1 _]] & _). assumption. Qed.
+
+Lemma exactly_once_one_job : forall g, greachable1 deps_one g -> gfinal 1 g -> no_abort g ->
+  body_runs (jd g 0) = 1 /\ results 1 g = [(Some VDone, true)].
+Proof.
+  intros g Hr Hf Hn. split; [eapply exactly_once_final; eauto|].
+  rewrite (results_final _ _ _ Hr Hf Hn). reflexivity.
+Qed.
+Lemma exactly_once_chain2 : forall g, greachable1 deps_chain2 g -> gfinal 2 g -> no_abort g ->
+  body_runs (jd g 0) = 1 /\ body_runs (jd g 1) = 1 /\ results 2 g = [(Some VDone, true); (Some VDone, true)].
+Proof.
+  intros g Hr Hf Hn. split; [eapply exactly_once_final; eauto|split; [eapply exactly_once_final; eauto|]].
+  rewrite (results_final _ _ _ Hr Hf Hn). reflexivity.
+Qed.
+Lemma exactly_once_indep2 : forall g, greachable1 deps_indep2 g -> gfinal 2 g -> no_abort g ->
+  body_runs (jd g 0) = 1 /\ body_runs (jd g 1) = 1 /\ results 2 g = [(Some VDone, true); (Some VDone, true)].
+Proof.
+  intros g Hr Hf Hn. split; [eapply exactly_once_final; eauto|split; [eapply exactly_once_final; eauto|]].
+  rewrite (results_final _ _ _ Hr Hf Hn). reflexivity.
+Qed.
+
+(* ==================================================================
+   No dead end: while the coroutine of a scheduler for a job is busy, some effect of a
+   scheduler or of a job process (not a death, not a kill) is enabled.
+   ================================================================== *)
+Definition I1c (st : jobdir) := forall p, lock st = Some (AProc p) -> plocked (procs st p) = true.
+Definition I2c (st : jobdir) := forall s, lock st = Some (ASched s) -> slocked (scheds st s) = true.
+Definition NS (st : jobdir) := forall s, scheds st s <> SStuck.
+
+Lemma release_inv : forall a l b, release a l = Some b -> l = Some b /\ a <> b.
+Proof.
+  intros a [c|] b H; simpl in H; [|discriminate].
+  destruct (agent_eqb a c) eqn:E; [discriminate|]. inversion H; subst. split; [reflexivity|].
+  intros ->. rewrite agent_eqb_refl in E. discriminate.
+Qed.
+
+Lemma I1c_step : forall st l st', I1 st -> I2 st -> I1c st -> step st l st' -> I1c st'.
+Proof.
+  intros st l st' H1 H2 H Hs q Hq. destruct l; destr_step Hs; simp;
+  try (apply H; assumption);
+  try (apply release_inv in Hq; destruct Hq as [Hq Hne]);
+  try discriminate;
+  upd_cases; simp; try reflexivity; try (apply H; assumption); try congruence;
+  try (inversion Hq; subst; congruence);
+  try (match goal with E : procs st ?p = _ |- _ => specialize (H1 p); rewrite E in H1; simpl in H1; specialize (H1 eq_refl); congruence end);
+  try (match goal with E : procs st ?p = _ |- _ => specialize (H p Hq); rewrite E in H; simpl in H; congruence end);
+  try (match goal with E : scheds st ?s = _ |- _ => specialize (H2 s); rewrite E in H2; simpl in H2; specialize (H2 eq_refl); congruence end).
+Qed.
+
+Lemma I2c_step : forall st l st', I1 st -> I2 st -> I2c st -> step st l st' -> I2c st'.
+Proof.
+  intros st l st' H1 H2 H Hs q Hq. destruct l; destr_step Hs; simp;
+  try (apply H; assumption);
+  try (apply release_inv in Hq; destruct Hq as [Hq Hne]);
+  try discriminate;
+  upd_cases; simp; try reflexivity; try (apply H; assumption); try congruence;
+  try (inversion Hq; subst; congruence);
+  try (match goal with E : scheds st ?s = _ |- _ => specialize (H2 s); rewrite E in H2; simpl in H2; specialize (H2 eq_refl); congruence end);
+  try (match goal with E : scheds st ?s = _ |- _ => specialize (H s Hq); rewrite E in H; simpl in H; congruence end);
+  try (match goal with E : procs st ?p = _ |- _ => specialize (H1 p); rewrite E in H1; simpl in H1; specialize (H1 eq_refl); congruence end).
+Qed.
+
+Lemma NS_step : forall st l st', NS st -> step st l st' -> NS st'.
+Proof.
+  intros st l st' H Hs q. destruct l; destr_step Hs; simp; try (apply H);
+  upd_cases; try discriminate; try (apply H); try (destruct (done st); discriminate).
+Qed.
+
+Definition InvP (st : jobdir) := Inv st /\ I1c st /\ I2c st /\ NS st.
+Lemma InvP_initial : forall st, initial st -> InvP st.
+Proof.
+  intros st Hi. split; [apply Inv_initial; assumption|].
+  destruct Hi as (Hp & Hn & Hs & Hl & _). unfold I1c, I2c, NS.
+  repeat split; intros; rewrite ?Hl, ?Hs in *; discriminate.
+Qed.
+Lemma InvP_step : forall st l st', InvP st -> step st l st' -> InvP st'.
+Proof.
+  intros st l st' (HI & Ha & Hb & Hc) Hs. assert (HI' := HI). destruct HI' as (H1 & H2 & _).
+  unfold InvP. repeat (match goal with |- _ /\ _ => split end);
+  eauto using Inv_step, I1c_step, I2c_step, NS_step.
+Qed.
+Lemma InvP_reachable : forall st, reachable st -> InvP st.
+Proof.
+  intros st (st0 & tr & Hi & Hs). apply InvP_initial in Hi. induction Hs; eauto using InvP_step.
+Qed.
+
+Definition can_progress (st : jobdir) : Prop := exists l st', progress_label l = true /\ lstep l st = Some st'.
+
+Lemma proc_can_step : forall st p, alive (procs st p) = true -> procs st p <> PLockW -> can_progress st.
+Proof.
+  intros st p Ha Hn. unfold can_progress. destruct (procs st p) eqn:E; simpl in Ha; try discriminate; try congruence.
+  - exists (LExec p). eexists. split; [reflexivity|]. unfold lstep, lstep_with. rewrite E. reflexivity.
+  - exists (LPTest p). eexists. split; [reflexivity|]. unfold lstep, lstep_with. rewrite E. reflexivity.
+  - exists (LRmFailed p). eexists. split; [reflexivity|]. unfold lstep, lstep_with. rewrite E. reflexivity.
+  - exists (LBegin p). eexists. split; [reflexivity|]. unfold lstep, lstep_with. rewrite E. reflexivity.
+  - exists (LEnd p true). eexists. split; [reflexivity|]. unfold lstep, lstep_with. rewrite E. reflexivity.
+  - exists (LTouch p false). eexists. split; [reflexivity|]. unfold lstep, lstep_with. rewrite E. reflexivity.
+  - exists (LWriteFailed p). eexists. split; [reflexivity|]. unfold lstep, lstep_with. rewrite E. reflexivity.
+  - exists (LRmPid p). eexists. split; [reflexivity|]. unfold lstep, lstep_with. rewrite E. reflexivity.
+  - exists (LPUnlock p). eexists. split; [reflexivity|]. unfold lstep, lstep_with. rewrite E. reflexivity.
+Qed.
+
+Lemma sched_locked_can_step : forall st s, slocked (scheds st s) = true -> can_progress st.
+Proof.
+  intros st s H. unfold can_progress. destruct (scheds st s) eqn:E; simpl in H; try discriminate.
+  - exists (LTrunc s). eexists. split; [reflexivity|]. unfold lstep, lstep_with. rewrite E. reflexivity.
+  - exists (LWrite s). eexists. split; [reflexivity|]. unfold lstep, lstep_with. rewrite E. reflexivity.
+  - exists (LSpawn s). eexists. split; [reflexivity|]. unfold lstep, lstep_with. rewrite E. reflexivity.
+  - exists (LCreatePid s). eexists. split; [reflexivity|]. unfold lstep, lstep_with. rewrite E. reflexivity.
+  - exists (LWritePid s). eexists. split; [reflexivity|]. unfold lstep, lstep_with. rewrite E. reflexivity.
+  - exists (LSUnlock s). eexists. split; [reflexivity|]. unfold lstep, lstep_with. rewrite E. reflexivity.
+Qed.
+
+Lemma holder_can_step : forall st a, InvP st -> lock st = Some a -> can_progress st.
+Proof.
+  intros st a (_ & Ha & Hb & _) Hl. destruct a as [s|q].
+  - eapply sched_locked_can_step. apply Hb. eassumption.
+  - specialize (Ha q Hl). apply (proc_can_step st q); destruct (procs st q); simpl in *; congruence.
+Qed.
+
+Lemma alive_proc_progress : forall st p, InvP st -> alive (procs st p) = true -> can_progress st.
+Proof.
+  intros st p HI Ha. destruct (procs st p) eqn:E; try (apply (proc_can_step st p); rewrite E; [assumption|discriminate]).
+  destruct (lock st) as [a|] eqn:El; [eapply holder_can_step; eauto|].
+  exists (LPLock p). eexists. split; [reflexivity|]. unfold lstep, lstep_with. rewrite E, El. reflexivity.
+Qed.
+
+Lemma no_deadlock : forall st s, reachable st -> sbusy (scheds st s) = true -> can_progress st.
+Proof.
+  intros st s Hr Hb. assert (HI := InvP_reachable _ Hr).
+  assert (HI' := HI). destruct HI' as (Hinv & _ & _ & Hns).
+  destruct Hinv as (_ & _ & _ & _ & _ & _ & _ & _ & _ & _ & _ & H13 & H14 & _).
+  destruct (scheds st s) eqn:E; simpl in Hb; try discriminate;
+  try (eapply sched_locked_can_step; rewrite E; reflexivity).
+  - exists (LTest1 s). eexists. split; [reflexivity|]. unfold lstep, lstep_with. rewrite E. reflexivity.
+  - exists (LPid s). unfold lstep, lstep_with. rewrite E.
+    destruct (pidf st) as [| |q]; [eexists; split; reflexivity|eexists; split; reflexivity|].
+    destruct (alive (procs st q)); eexists; split; reflexivity.
+  - destruct (alive (procs st p)) eqn:Ea; [eapply alive_proc_progress; eauto|].
+    exists (LAdoptEnd s). eexists. split; [reflexivity|]. unfold lstep, lstep_with. rewrite E, Ea. reflexivity.
+  - exists (LTest2 s). unfold lstep, lstep_with. rewrite E.
+    destruct (done st); [eexists; split; reflexivity|]. destruct adopted; [eexists; split; reflexivity|].
+    destruct d; eexists; split; reflexivity.
+  - destruct (lock st) as [a|] eqn:El; [eapply holder_can_step; eauto|].
+    exists (LSLock s). eexists. split; [reflexivity|]. unfold lstep, lstep_with. rewrite E, El. reflexivity.
+  - destruct (alive (procs st p)) eqn:Ea; [eapply alive_proc_progress; eauto|].
+    destruct (procs st p) eqn:Ep; simpl in Ea; try discriminate.
+    + exfalso. apply (H14 p); [apply (H13 s); rewrite E; reflexivity|assumption].
+    + exists (LWaitEnd s). eexists. split; [reflexivity|]. unfold lstep, lstep_with. rewrite E, Ep. reflexivity.
+  - exfalso. apply (Hns s). assumption.
+Qed.
+
+(* the pinned code: the scheduler dies between creating the pid file and closing it; the job
+   process finishes on its own; the same experiment run again is stuck for ever although the
+   marker exists and nothing is running                                                        *)
+Definition tr_empty_pid : list label :=
+  [LSubmit 0; LTest1 0; LPid 0; LTest2 0; LReady 0; LSLock 0; LTrunc 0; LWrite 0; LSpawn 0; LCreatePid 0; LCrash 0] ++
+  tr_proc_begin 0 ++ [LEnd 0 true; LTouch 0 false] ++ [LSubmit 0; LTest1 0; LPid 0].
+Lemma empty_pid_stuck_refuted : exists st,
+  run_labels_prefix tr_empty_pid fresh = Some st /\ Forall lbl_single tr_empty_pid /\
+  done st = true /\ body_runs st = 1 /\ (forall p, alive (procs st p) = false) /\ lock st = None /\
+  sbusy (scheds st 0) = true /\
+  (forall l, progress_label l = true -> lstep_prefix l st = None).
+Proof.
+  eexists. split; [vm_compute; reflexivity|]. split; [repeat constructor|].
+  repeat split.
+  - intros p. destruct p as [|p]; reflexivity.
+  - intros l Hl. destruct l as [s|s|s|s|s|s|s|s|s|s|s|s|s|s|s|s|p|p|p|p|p|p ok|p c|p|p|p|p]; simpl in Hl; try discriminate;
+    try (destruct s as [|s]; reflexivity); try (destruct p as [|p]; reflexivity).
+Qed.
+(* the same run with the repaired aio_process goes on: the marker is found *)
+Example empty_pid_repaired : exists st,
+  run_labels (tr_empty_pid ++ [LTest2 0]) fresh = Some st /\ scheds st 0 = SFinal VDone /\ body_runs st = 1.
+Proof. eexists. split; [vm_compute; reflexivity|]. split; reflexivity. Qed.
+Example no_deadlock_nonvacuous : reachable st_two_scheds /\ sbusy (scheds st_two_scheds 1) = true /\
+  lstep (LSLock 1) st_two_scheds = None.
+Proof. split; [apply body_mutex_nonvacuous|split; vm_compute; reflexivity]. Qed.
